@@ -9,7 +9,7 @@ import RV.Driver.Util
     F mode ks tree hybrid nActive nVar seed dt t <res> nInner <ring> <parts> <given>
                                   → seed' | calls | final state        (see `fullOut`)
 
-    <ring>  = ngb, then ngb × 6 doubles
+    <ring>  = N_ghost_x N_ghost_y N_ghost_z, then 27 × 6 doubles (ghost boxes i,j,k = -1..1)
     <cand>  = n, then n × (ip x y z vx vy vz r)
     <parts> = n, then n × (id x y z vx vy vz m r lc)
     <given> = k, then k × (p1 p2 gbindex)          (pre-shuffle list, used when mode = given)
@@ -37,7 +37,14 @@ def tGB : Tok (GB Float) := do
   let x ← tF; let y ← tF; let z ← tF; let vx ← tF; let vy ← tF; let vz ← tF
   return ⟨x, y, z, vx, vy, vz⟩
 
-def tRing : Tok (List (GB Float)) := do let n ← tNat; tMany tGB n
+/-- `ngx ngy ngz` (the simulation's N_ghost_x/y/z) followed by the 27 values of
+    `reb_boundary_get_ghostbox(r,i,j,k)` for i,j,k = -1..1 (nested in this order); the ring
+    the searches loop over is selected by the model's `ghostRing` -/
+def tRing : Tok (List (GB Float)) := do
+  let ngx ← tInt; let ngy ← tInt; let ngz ← tInt
+  let tab ← tMany tGB 27
+  return (ghostRing ngx ngy ngz).filterMap fun (a, b, c) =>
+    tab[((a+1)*9 + (b+1)*3 + (c+1)).toNat]?
 
 def tCand : Tok (Nat × Part Float) := do
   let ip ← tNat
